@@ -1,6 +1,6 @@
 (** C10 — changing representation loses nothing: the obligations, written out in full. *)
 From Coq Require Import List NArith ZArith String.
-From SK Require Import lib.LGraph lib.StrJoin model.C10_Model proof.C10_Proof proof.C10_Hydrogen proof.C10_Routes proof.C10_GmlWrite proof.C10_HRound proof.C10_Routes2.
+From SK Require Import lib.LGraph lib.StrJoin model.C10_Model proof.C10_Proof proof.C10_Hydrogen proof.C10_Routes proof.C10_GmlWrite proof.C10_HRound proof.C10_Routes2 proof.C10_Reindex.
 Import ListNotations.
 Local Open Scope Z_scope.
 
@@ -114,3 +114,21 @@ Theorem C10_two_routes_centre :
     (forall n, has_node A n = has_node (get_rc I) n) /\ (forall u v, adj A u v = adj (get_rc I) u v).
 Proof. exact two_routes_centre. Qed.
 Print Assumptions C10_two_routes_centre.
+
+(** ITS -> GML -> ITS with reindex=True (the default of its_to_gml): the same round trip up to the documented
+    renumbering f = old id |-> position (counted from 1) of the node in the node order of the graph.  f is injective on
+    the nodes; the graph read back has exactly the nodes f n, at f n the element and both charges of n, and between
+    f u and f v exactly the bond dictionary of (u, v); nothing else. *)
+Theorem C10_gml_roundtrip_reindex :
+  forall c : gr, its_ok c = true ->
+    let f := mapget (enum_from 1%N (node_ids c)) in
+    let I' := gml_to_its (its_to_gml c false true false) in
+    (forall a b, In a (node_ids c) -> In b (node_ids c) -> f a = f b -> a = b) /\
+    (forall k, has_node I' k = true <-> exists n, In n (node_ids c) /\ k = f n) /\
+    (forall n a, label c n = Some a ->
+       label I' (f n) = Some (gml_node (f n) (tg_el (tG_of a)) (tg_ch (tG_of a)) (tg_ch (tH_of a)))) /\
+    (forall u v, In u (node_ids c) -> In v (node_ids c) -> adj I' (f u) (f v) = adj c u v) /\
+    (forall k l x, adj I' k l = Some x ->
+       exists u v, In u (node_ids c) /\ In v (node_ids c) /\ k = f u /\ l = f v /\ adj c u v = Some x).
+Proof. exact gml_roundtrip_reindex. Qed.
+Print Assumptions C10_gml_roundtrip_reindex.
